@@ -19,6 +19,7 @@ func Gen(r *vk.Run, n int) error {
 		return err
 	}
 	g.genProto(100 + n/40)
+	g.genProtoConv(40 + n/60)
 	return g.genDocs(60 + n/200)
 }
 
